@@ -28,8 +28,10 @@ Log(op) == h' = Append(h, op)
 
 \* watermarks the protocol allows: none, or as high as possible - strictly below every
 \* held snapshot, or the visible seqno when no snapshot is held
+\* (with no snapshot held a watermark above every seqno ever issued is legal too - the
+\* repository's own tests pass 1_000 - and makes maintenance drop every older version)
 WChoices ==
-    {0} \cup (IF st.snaps = {} THEN {st.vis}
+    {0} \cup (IF st.snaps = {} THEN {st.vis, Top}
              ELSE IF Min(st.snaps) = 0 THEN {} ELSE {Min(st.snaps) - 1})
 
 \* the value written is a function of the seqno, so that an overwritten value always
@@ -188,7 +190,7 @@ IngestBatches ==
 Ingest ==
     /\ "ingest" \in Ops /\ st.seq + 1 < MaxSeq
     /\ \E b \in IngestBatches :
-         LET s1 == OpIngest(st, b)
+         LET s1 == OpIngestSep(st, b, [on |-> BigVals # {}, big |-> BigVals])
              g  == s1.seq - 1 IN
          /\ st' = s1
          /\ A' = AIngest(A, {[k |-> b[j].k, s |-> g, t |-> b[j].t, v |-> b[j].v] : j \in 1..Len(b)})
